@@ -519,6 +519,11 @@ def handleErrDec (id : String) (t : List String) : Option (List String Ã— Nat Ã—
     match rest with
     | "=>" :: outsS =>
       if outsS == ["PANIC"] || outsS == ["HANG"] then return propfail id "C04" "panic or hang"
+      -- optional last token `direct=K`: index of the first step whose direct Context call returns an error
+      let direct? : Option Int := match outsS.getLast? with
+        | some l => if l.startsWith "direct=" then (l.drop 7).toString.toInt? else none
+        | none => none
+      let outsS := if direct?.isSome then outsS.dropLast else outsS
       let outs â† parseOuts outsS
       if outs.length != n then none
       let mut res : List String Ã— Nat Ã— Nat := ([], 0, 0)
@@ -549,6 +554,14 @@ def handleErrDec (id : String) (t : List String) : Option (List String Ã— Nat Ã—
             res := merge res (propfail id "C03" s!"ErrDecimal step {k} lost accumulated flags")
         | none => pure ()
         prev := some o
+      -- ErrDecimal reports its first error exactly at the first step whose direct call fails
+      match direct? with
+      | some dk =>
+        let edFirst : Int := match (outs.zipIdx.find? (fun p => p.1.err != .none)) with
+          | some p => (p.2 : Int) | none => -1
+        if edFirst != dk then
+          res := merge res (propfail id "C03" s!"ErrDecimal.Err() first reports an error at step {edFirst} (-1 = never), the same calls made directly fail first at step {dk}")
+      | none => pure ()
       return res
     | _ => none
   | _ => none
@@ -631,7 +644,9 @@ def handleBigSeq (id : String) (t : List String) : Option (List String Ã— Nat Ã—
 /-- `bigwrap m x y k => apd mathbig` : a wrapper method compared with math/big directly (C16) -/
 def handleBigWrap (id : String) (t : List String) : Option (List String Ã— Nat Ã— Nat) :=
   match t with
-  | [m, _, _, _, "=>", a, b] =>
+  | [mp, _, _, _, "=>", a, b] =>
+    -- `Mod@z=y`: method and alias pattern
+    let m := (mp.splitOn "@").headD mp
     if a == "skip" then some ([], 0, 0)
     else if a == "PANIC" then some (propfail id "C04" s!"BigInt.{m} panic")
     else
@@ -640,7 +655,7 @@ def handleBigWrap (id : String) (t : List String) : Option (List String Ã— Nat Ã
       let lastCanon := (BigDrv.stripCanon (parts.getLast?.getD "")).2
       let body := if ["Text", "Bytes", "TrailingZeroBits"].contains m then a
                   else "|".intercalate (parts.dropLast ++ [(BigDrv.stripCanon (parts.getLast?.getD "")).1])
-      let r1 := if body != b then propfail id "C16" s!"{m}: apd.BigInt gives {body}, math/big gives {b}" else ([], 0, 0)
+      let r1 := if body != b then propfail id "C16" s!"{mp}: apd.BigInt gives {body}, math/big gives {b}" else ([], 0, 0)
       let r2 := if (lastCanon.splitOn "negzero").length > 1 then propfail id "C16" s!"{m}: negative zero representation" else ([], 0, 0)
       some (merge r1 r2)
   | [m, _, _, _, "=>", a] => if a == "PANIC" || a == "HANG" then some (propfail id "C04" s!"BigInt.{m} {a}") else none
@@ -945,6 +960,18 @@ def handleLine (line : String) : Option (List String Ã— Nat Ã— Nat) :=
      | some "differs" => some (propfail id "C18" "a call run concurrently over shared context/operands returned a different outcome than when run alone")
      | some "RACE" => some (propfail id "C18" "the Go race detector reported a data race")
      | _ => none)
+  | [id, "sci", ds, "=>", hS, hE, he, hg] =>
+    -- String()/Text of a decimal whose exponent lies beyond the package limits (scientific notation only)
+    (match parseDec ds, decodeHex hS, decodeHex hE, decodeHex he, decodeHex hg with
+     | some pd, some sS, some sE, some se, some sg =>
+       let d := pd.d
+       let r1 := [('G', sS), ('E', sE), ('e', se), ('g', sg)].foldl (fun (res : List String Ã— Nat Ã— Nat) (p : Char Ã— String) =>
+         let m := Apd.Text.append d p.1
+         if m != p.2 then merge res ([s!"{id} MISMATCH text {p.1} model= {m}"], 1, 0) else res) ([], 0, 0)
+       let r2 := if sS != Apd.Spec.toSci d then
+         propfail id "C14" s!"String() is not the to-scientific-string {Apd.Spec.toSci d}" else ([], 0, 0)
+       some (merge r1 r2)
+     | _, _, _, _, _ => none)
   | id :: "text" :: rest => handleText id rest
   | id :: "float" :: rest => handleFloat id rest
   | id :: "api" :: rest =>
